@@ -14,6 +14,9 @@ PRESERVING = {("Vec", "as_slice"), ("array", "as_slice"), ("String", "as_str"), 
 PRESERVING_FNITEMS = ("as_slice", "as_str", "as_bytes", "deref", "as_ref", "borrow")
 
 
+_FACTS = [None]
+
+
 def preserving(t, param):
     """t is `param` seen through representation-preserving conversions only"""
     if t == param:
@@ -26,8 +29,21 @@ def preserving(t, param):
             return preserving(t[2][0], param)
         if t[1] == ("Iterator", "map") and len(t[2]) == 2:
             f = t[2][1]
-            return preserving(t[2][0], param) and f[0] == "const" and \
-                any(("::" + n) in f[1] or f[1].endswith(n) for n in PRESERVING_FNITEMS)
+            if not preserving(t[2][0], param):
+                return False
+            if f[0] == "const":
+                return any(("::" + n) in f[1] or f[1].endswith(n) for n in PRESERVING_FNITEMS)
+            if f[0] == "agg" and str(f[1]).startswith("closure:") and _FACTS[0] is not None:
+                # an element-wise closure that returns its parameter through representation-
+                # preserving conversions only (`|item| item.as_ref()`)
+                cb = _FACTS[0].body(f[1][len("closure:"):])
+                if cb is None:
+                    return False
+                cctx = Ctx(cb)
+                cparam = ("place", cb.key, ("arg", 2), ())
+                rets = [tree(cctx, o) for o in cctx.org.local(0)]
+                return bool(rets) and all(preserving(r, cparam) for r in rets)
+            return False
     if t[0] == "agg" and t[1] == "PushIter::PushIter" and t[2]:
         return preserving(t[2][0], param)
     return False
@@ -48,6 +64,7 @@ def forward_calls(b, ctx, trait, name):
 
 def r_forward(F, R, cat=None):
     cat = cat or Catalogue(F)
+    _FACTS[0] = F
     n = 0
     for (trait, name) in (("Push", "push"), ("ReserveItems", "reserve_items")):
         for b in F.methods_of_trait(trait, name):
@@ -131,6 +148,7 @@ def signature(F, cat, b):
 
 def r_sibling(F, R, cat=None):
     cat = cat or Catalogue(F)
+    _FACTS[0] = F
     groups = defaultdict(list)
     for b in F.methods_of_trait("Push", "push"):
         if b.in_tests():
@@ -166,6 +184,7 @@ def r_sibling(F, R, cat=None):
 
 def r_pushstorage(F, R, cat=None):
     cat = cat or Catalogue(F)
+    _FACTS[0] = F
     n = 0
     for b in F.methods_of_trait("PushStorage", "push_storage"):
         n += 1
